@@ -1078,3 +1078,84 @@ def selfcheck(rng, n=6):
         for a, b in checks:
             if not np.allclose(a, b, rtol=1e-6, atol=1e-7):
                 raise common.MachineryError("integ_common.selfcheck: analytic derivative mismatch")
+
+
+# --------------------------------------------------------------------------------------
+# helpers shared by the harnesses
+
+
+def dyadic_step(sysw: SysW, factor=0.25):
+    """Largest power of two <= factor / sysw.scale()."""
+    return float(2.0 ** np.floor(np.log2(factor / sysw.scale())))
+
+
+def integrator_class_name(ispec):
+    return {
+        "leapfrog": "LeapfrogIntegrator", "symcomp": "SymmetricCompositionIntegrator",
+        "bcss2": "BCSSTwoStageIntegrator", "bcss3": "BCSSThreeStageIntegrator", "bcss4": "BCSSFourStageIntegrator",
+        "implicit_leapfrog": "ImplicitLeapfrogIntegrator", "implicit_midpoint": "ImplicitMidpointIntegrator",
+        "constrained_leapfrog": "ConstrainedLeapfrogIntegrator",
+    }[ispec["kind"]]
+
+
+def describe(case):
+    """Short human readable description of a case dict."""
+    s, i = case.get("system", {}), case.get("integrator", {})
+    bits = [s.get("kind", "?"), f"dim={s.get('dim')}", f"target={s.get('target', {}).get('kind')}"]
+    if "metric" in s:
+        bits.append(f"metric={s['metric']['kind']}")
+    if "constr" in s:
+        bits.append(f"constraint={s['constr']['kind']}")
+        if "hausdorff" in s:
+            bits.append(f"hausdorff={s['hausdorff']}")
+    if i:
+        bits.append(f"step_size={fl(i['step_size']) if i.get('step_size') is not None else None}")
+        for k in ("solver", "proj", "n_inner", "initial_h1"):
+            if k in i:
+                bits.append(f"{k}={i[k]}")
+        if "free" in i:
+            bits.append(f"free={dec(i['free'])}")
+    if "n" in case:
+        bits.append(f"n={case['n']}")
+    if "state" in case:
+        bits.append(f"dir={case['state'].get('dir')}")
+    return " ".join(str(b) for b in bits)
+
+
+def coefficient_failures(integ, system, exact=True):
+    """Palindrome / consistency conditions on a live SymmetricCompositionIntegrator.
+
+    Returns list of (tag, message); tags: 'length', 'palindrome', 'flows', 'sum_a', 'sum_b'."""
+    out = []
+    co, flows = list(integ.coefficients), list(integ.flows)
+    if len(co) != len(flows) or len(co) % 2 != 1:
+        out.append(("length", f"len(coefficients)={len(co)}, len(flows)={len(flows)}"))
+        return out
+    if any(a != b for a, b in zip(co, co[::-1])):
+        out.append(("palindrome", f"coefficients not palindromic: {co}"))
+
+    def which(f):
+        fn = getattr(f, "__func__", f)
+        if getattr(f, "__self__", None) is system and fn is type(system).h1_flow:
+            return 1
+        if getattr(f, "__self__", None) is system and fn is type(system).h2_flow:
+            return 2
+        return 0
+
+    tags = [which(f) for f in flows]
+    first = 1 if integ.initial_h1_flow_step else 2
+    want = [first if k % 2 == 0 else 3 - first for k in range(len(flows))]
+    if tags != want:
+        out.append(("flows", f"flows are {tags}, expected alternating {want}"))
+        return out
+    for tag, name in ((first, "sum_a"), (3 - first, "sum_b")):
+        cs = [c for c, t in zip(co, tags) if t == tag]
+        if exact:
+            tot = sum((Fraction(*float(c).as_integer_ratio()) for c in cs), Fraction(0))
+            ok = tot == 1
+        else:
+            tot = float(np.sum(cs))
+            ok = abs(tot - 1.0) <= 1e-15 * max(1, len(cs))
+        if not ok:
+            out.append((name, f"coefficients of flow {'A' if name == 'sum_a' else 'B'} sum to {float(tot)!r} != 1: {co}"))
+    return out
